@@ -226,6 +226,13 @@ func runOne(c *mon.C, shapes []gen.Shape, side ref.Side, ext bool, b bad, withTa
 				c.Fail("leak/"+entry+"/"+cls, "bytes delivered for the open message are not a prefix of its fragments before the offending frame", det())
 				return false
 			}
+			if (entry == "reader" || entry == "readdata") && !bytes.Equal(obs.Partial, openData) {
+				// "delivers everything before that frame exactly as it would for a valid stream": the consumer of a
+				// Reader has read, and ReadData hands back together with the error, the payload of the open
+				// message's fragments that precede the offending frame
+				c.Fail("lost-prefix/"+entry+"/"+cls, fmt.Sprintf("%d payload bytes of the open message precede the offending frame but %d were delivered with the error", len(openData), len(obs.Partial)), det())
+				return false
+			}
 			if wantTooLarge && ch.Pos > hdrEnd {
 				c.Fail("overread/too-large", fmt.Sprintf("transport delivered %d bytes, offending header ends at %d: payload was read before the size limit refused the frame", ch.Pos, hdrEnd), det())
 				return false
